@@ -135,12 +135,16 @@ ContractListing == CList(1, Len(nodes))
 InlineNames == {"a", "abbr", "acronym", "applet", "b", "basefont", "bdo", "big", "br", "button", "cite", "code", "del", "dfn",
                 "em", "font", "i", "iframe", "img", "input", "ins", "kbd", "label", "map", "object", "q", "s", "samp", "select",
                 "small", "span", "strike", "strong", "sub", "sup", "textarea", "tt", "u", "var"}
-ImplName(p) == IF p \in {"ul", "ol"} THEN "li"
+\* element names are not case sensitive: the table is consulted with the lower-cased parent name
+LowerName(p) == CASE p = "UL" -> "ul" [] p = "OL" -> "ol" [] p = "Table" -> "table" [] p = "TR" -> "tr" [] p = "P" -> "p" [] p = "EM" -> "em"
+              [] p = "SELECT" -> "select" [] p = "DIV" -> "div" [] p = "Span" -> "span" [] p = "TBody" -> "tbody" [] OTHER -> p
+ImplNameL(p) == IF p \in {"ul", "ol"} THEN "li"
                ELSE IF p \in {"table", "tbody", "thead", "tfoot"} THEN "tr"
                ELSE IF p = "tr" THEN "td"
                ELSE IF p \in {"select", "optgroup"} THEN "option"
                ELSE IF p = "p" \/ p \in InlineNames THEN "span"
                ELSE "div"
+ImplName(p) == ImplNameL(LowerName(p))
 \* name of the closest listed element one level up (the listing is in pre-order, so it is the last one seen)
 ParentName(done, d) == IF d = 0 THEN ""
                        ELSE LET idx == {j \in 1..Len(done) : done[j].d = d - 1} IN
